@@ -49,6 +49,8 @@ structure World where
   description : List String → String
   simpleSafe : String → Bool
   wrapper : String → Bool
+  /-- `_WRAPPER_FLAGS_WITH_ARG.get(base, ())` -/
+  wrapperArgFlags : String → List String
   resolveCd : String → String → String
   safeTarget : String → Bool
   redirectOp : String → Bool
@@ -108,14 +110,20 @@ def isVersionOrHelp (helpWords helpFlags2 helpFlagsLast : List String) (tokens :
   else if helpFlagsLast.contains (tokens.getLastD "") ∧ tokens.length ≤ 4 then true
   else false
 
-/-- the wrapper argument-skipping loop: what remains is the inner command -/
-def skipWrapperArgs : List String → List String
-  | [] => []
-  | t :: ts =>
-    if Py.isDigitStr t || Py.isDigitStr (Py.removeChar t '.') then skipWrapperArgs ts
-    else if Py.startsWith t "-" && t != "--" then skipWrapperArgs ts
+/-- the wrapper argument-skipping loop: what remains is the inner command.  `fwa` are the options of
+    this wrapper whose argument is a separate word (`_WRAPPER_FLAGS_WITH_ARG[base]`); the flag
+    says "the next token is such an argument" (`j += 2`) -/
+def skipWrapperAux (fwa : List String) : Bool → List String → List String
+  | _, [] => []
+  | true, _ :: ts => skipWrapperAux fwa false ts
+  | false, t :: ts =>
+    if Py.isDigitStr t || Py.isDigitStr (Py.removeChar t '.') then skipWrapperAux fwa false ts
+    else if fwa.contains t then skipWrapperAux fwa true ts
+    else if Py.startsWith t "-" && t != "--" then skipWrapperAux fwa false ts
     else if t == "--" then ts
     else t :: ts
+
+def skipWrapperArgs (fwa : List String) (l : List String) : List String := skipWrapperAux fwa false l
 
 def matchMsg (m : Match) : String := Py.orElse m.message m.pattern
 
@@ -188,7 +196,7 @@ def simpleCmd (w : World) (rec : Rec) (h : HelpTables) :
             if base == "command" && (tokens.getD 1 "" == "-v" || tokens.getD 1 "" == "-V") then
               ⟨.allow, "command -v"⟩
             else
-              match skipWrapperArgs (tokens.drop 1) with
+              match skipWrapperArgs (w.wrapperArgFlags base) (tokens.drop 1) with
               | [] => ⟨.ask, base⟩
               | inner => simpleCmd w rec h n inner cwd remote
           else builtinVerdict w rec h.helpWords h.helpFlags2 h.helpFlagsLast tokens cwd remote
